@@ -43,11 +43,16 @@ def _norm_chunks(chunks, shape, current=None):
     return tuple(out)
 
 
+EPOCH = [0]
+OVERRIDE = {}
+TRACE = [None]
+
+
 class Array:
     __array_priority__ = 3000
 
     def __init__(self, whole=None, chunks=None, thunk=None, shape=None, dtype=None):
-        self._state = [whole, thunk]      # replaced (not mutated) by item assignment: lazy children keep the state they captured
+        self._state = [whole, thunk, 0, None]      # [value, thunk, epoch of the cached value, explicit layer name]; replaced (not mutated) by item assignment: lazy children keep the state they captured
         self._shape = tuple(whole.shape) if whole is not None else (tuple(shape) if shape is not None else None)
         self._dtype = whole.dtype if whole is not None else (_np.dtype(dtype) if dtype is not None else None)
         self._chunks = chunks
@@ -64,9 +69,17 @@ class Array:
 
     @staticmethod
     def _eval(st):
-        if st[0] is None:
+        # graph-key model (see `compute`): a layer created with an explicit name= has exactly that key; when two different layers with the same
+        # name meet in one graph, one replaces the other (OVERRIDE); cached values are only valid within the evaluation epoch they were computed in
+        st = OVERRIDE.get(id(st), st)
+        if st[1] is None:
+            return st[0]                       # a leaf (concrete or symbolic data)
+        if st[0] is None or st[2] != EPOCH[0]:
             w = st[1]()
             st[0] = w if isinstance(w, SymArray) else symnp.asarray(w)
+            st[2] = EPOCH[0]
+        if st[3] is not None and TRACE[0] is not None:
+            TRACE[0].append((st[3], st))
         return st[0]
 
     def _cap(self):
@@ -182,7 +195,7 @@ class Array:
             base = symnp.asarray(prev()).copy()
             base[kget()] = vget()
             return base
-        self._state = [None, run]
+        self._state = [None, run, 0, None]
 
     # -- elementwise
     def _bin(self, o, f):
@@ -278,6 +291,8 @@ def _assemble(results, nblocks):
 
 
 def map_blocks(f, *args, dtype=None, meta=None, chunks=None, drop_axis=None, new_axis=None, **kwargs):
+    xname = kwargs.pop('name', None)          # an explicit name= is the full graph key of the layer (token= only a prefix: no collision)
+    kwargs.pop('token', None)
     arrs = [a for a in args if isinstance(a, Array) and a.ndim > 0]
     if drop_axis is not None or new_axis is not None:
         raise sc.ShimMissing("map_blocks(drop_axis/new_axis)")
@@ -318,7 +333,9 @@ def map_blocks(f, *args, dtype=None, meta=None, chunks=None, drop_axis=None, new
             r = f(*blk_args, **kwargs)
             results[pos] = symnp.asarray(r)
         return _assemble(results, nblocks)
-    return Array(None, ref.chunks, run, shape=ref.shape, dtype=dtype)
+    out = Array(None, ref.chunks, run, shape=ref.shape, dtype=dtype)
+    out._state[3] = xname
+    return out
 
 
 def ensure_minimum_chunksize(size, chunks):
@@ -357,6 +374,8 @@ def _coerce_depth(nd, depth):
 
 
 def map_overlap(f, *args, depth=None, boundary=None, trim=True, meta=None, align_arrays=True, allow_rechunk=True, **kwargs):
+    xname = kwargs.pop('name', None)
+    kwargs.pop('token', None)
     if isinstance(f, Array):
         # legacy argument order  map_overlap(x, func, ...)
         f, args = args[0], (f,) + tuple(args[1:])
@@ -407,7 +426,9 @@ def map_overlap(f, *args, depth=None, boundary=None, trim=True, meta=None, align
                 r = r[tk]
             results[pos] = r
         return _assemble(results, nblocks)
-    return Array(None, ref.chunks, run, shape=ref.shape)
+    out = Array(None, ref.chunks, run, shape=ref.shape)
+    out._state[3] = xname
+    return out
 
 
 # ----------------------------------------------------------------- module-level functions
@@ -582,4 +603,45 @@ def from_delayed(d, shape=None, dtype=None, meta=None, **kw):
 
 
 def compute(*a, **kw):
-    return tuple(_force(x) for x in a)
+    """dask.compute(*collections): one merged graph.  Layers created with an explicit `name=` carry that key verbatim, so two *different* layers
+    of the same name collide when they are evaluated together: the later collection's layer replaces the earlier one's (each collection computed
+    on its own is unaffected).  Modelled by evaluating every collection once to learn which named layers it contains, then re-evaluating the
+    collections whose named layer lost."""
+    arrs = [x for x in a if isinstance(x, Array)]
+    if len(arrs) < 2:
+        return tuple(_force(x) for x in a)
+    traces = []
+    for x in arrs:
+        EPOCH[0] += 1
+        TRACE[0] = []
+        try:
+            Array._eval(x._state)
+        finally:
+            tr, TRACE[0] = TRACE[0], None
+        traces.append(tr)
+    winners = {}
+    for tr in traces:
+        for name, st in tr:
+            winners[name] = st
+    for x, tr in zip(arrs, traces):
+        ov = {id(st): winners[name] for name, st in tr if winners[name] is not st}
+        if ov:
+            EPOCH[0] += 1
+            OVERRIDE.update(ov)
+            try:
+                joint = Array._eval(x._state)
+                x._state[2] = -1            # the colliding value must not be reused by a later, separate evaluation
+            finally:
+                OVERRIDE.clear()
+            x._joint_value = joint
+        else:
+            x._joint_value = None
+    out = []
+    for x in a:
+        if isinstance(x, Array) and getattr(x, '_joint_value', None) is not None:
+            v = x._joint_value
+            out.append(v.item() if isinstance(v, SymArray) and v.ndim == 0 else v)
+        else:
+            out.append(_force(x))
+    EPOCH[0] += 1
+    return tuple(out)
